@@ -31,6 +31,14 @@ CLAIMED = {
    "TLA+ model of retention (spec/Prune.tla over Repo/Push: MustRetain from git-lfs-prune(1)) explored by TLC; per-edge behaviours ending in a prune replayed with real git + git-lfs + fake server under varied attribute spellings and ambient git configuration; observed deletions must avoid MustRetain",
    "TLC explores every history of <=3 commits / <=5 steps (thorough <=4/6) with commit dates 0 or 20 days old, single- and multi-path commits, partial pushes, stale remote-tracking refs, staged files, stashes, branch switches, a server that lost objects, and prune with no flag / --dry-run / --recent / --force / --verify-remote. The acceptor lets prune delete any subset of local minus MustRetain; replayed runs are judged on Deleted /\\ MustRetain = {}, dry-run deletes nothing, --verify-remote deletes nothing reachable the server lacks. Each behaviour is concretised with the default attribute line and git config or with one of 6 other spellings / 10 ambient settings.",
    "MustRetain uses the conservative reading of 'unpushed' (referenced by an unpushed commit and by no commit the remote has). fetchrecentcommitsdays=0 (default), extra worktrees and detached HEAD not yet modelled; dates far from the window boundary.", "DESIGN.md §5 C05"),
+ "C01": ("exploration",
+   "TLA+ enumeration of the filter's input domain (spec/Filter.tla: content class x delivery x front-end x work-tree state, branch oracle depending on content only); every case concretised and run through the real one-shot filters (pipe with forced short reads), filter-process (pkt-line client) and git add/checkout",
+   "TLC enumerates the complete product of 12 data classes (lengths 0, 1, around 1024, around the 65516 pkt-line limit, 2x65516; thorough adds 1 MiB+1 and 4 MiB) x 11 deliveries (single write, splits at 1 / middle / 1023 / 1024 / 1025, single bytes through the prefix and the cutoff, packets of 1 / 7 / 1024 / 65516 bytes) x 3 front-ends x 5 work-tree states. For each case the harness computes SHA-256 and length itself and requires: clean emits exactly the canonical pointer of that pair, local storage holds exactly the input under that id and nothing else new, smudging the pointer returns the input bytes, empty maps to empty.",
+   "Short reads are forced by delivering each chunk only while the filter is blocked in read(0) (observed via /proc). merge-driver front-end and pointer extensions are not yet covered.", "DESIGN.md §5 C01"),
+ "C08": ("exploration",
+   "same enumeration (spec/Filter.tla, pointer classes) with the C08 branch oracle: well-formed pointer < 1024 bytes passes through clean unchanged and stores nothing; look-alikes and anything >= 1024 bytes are content in full; non-pointers pass through smudge",
+   "All pointer classes (canonical, CRLF, padded to 1023 / 1024 / 1025 bytes, pointer + byte / + line / + 64 KiB / + data to 1500, upper-case oid; thorough adds extension and legacy-version pointers) x every delivery that puts a chunk boundary inside or exactly after the pointer text x front-ends x work-tree states. Invariants NoPointerToPointer and LookAlikeIsContent hold on the model; on the code: pass-through is byte-identical and the object store is unchanged, look-alikes get the canonical pointer of their full bytes, non-pointer bytes pass through smudge unchanged.",
+   "As C01. The skip-smudge checkout followed by git add / stash / commit -a front-end is represented by the gitadd front-end with a pointer work-tree file.", "DESIGN.md §5 C08"),
 }
 
 checks = []
